@@ -1417,11 +1417,39 @@ def _open(interp, args, kwargs):
     return pbmodel.open_model(interp, args, kwargs)
 
 
+class MplObj:
+    """a matplotlib artist that was constructed: (kind, args, kwargs) -- recorder, see DESIGN.md 2.9"""
+
+    def __init__(self, kind, args, kwargs):
+        self.kind, self.args, self.kwargs = kind, args, kwargs
+
+    def __repr__(self):
+        return "<mpl %s>" % self.kind
+
+
+def _dc_fields(interp, args, kwargs):
+    import dataclasses as _dc
+
+    o = args[0]
+    return _dc.fields(o.cls if type(o) is SObj else o)
+
+
+def _object_setattr(interp, args, kwargs):
+    o, name, value = args
+    if type(o) is SObj:
+        interp.raw_setattr(o, name, value)
+        return None
+    raise Unsupported("object.__setattr__ on %r" % type(o))
+
+
 def build_models():
     import re as _re
+    import dataclasses as _dc
 
     M = {
         _re.sub: _re_sub,
+        _dc.fields: _dc_fields,
+        object.__setattr__: _object_setattr,
         builtins.open: _open,
         builtins.isinstance: _isinstance,
         builtins.type: _type,
